@@ -389,3 +389,14 @@ impl ContextHandle {
         Ok(rsp.unwrap())
     }
 }
+
+#[cfg(feature = "verif-hooks")]
+impl ContextHandle {
+    /// Verification hook: moves the subscription identifier counter shared by all
+    /// clones, so that histories of millions of subscribe() calls need not be replayed
+    /// to reach the far end of the identifier space.
+    ///
+    pub fn verif_set_next_subscription_identifier(&self, value: u32) {
+        self.sub_id.store(value, Ordering::Relaxed);
+    }
+}
